@@ -33,6 +33,7 @@ type Exec struct {
 	entrySt  *State
 	closures map[string]*closureInfo
 	modScopes []map[*ssa.BasicBlock]bool
+	nfuncs    int
 	globals  map[*ssa.Global]*Term
 }
 
@@ -700,7 +701,13 @@ func (x *Exec) globalRef(g *ssa.Global) *Term {
 
 func (x *Exec) funcRef(f *ssa.Function) *Term {
 	name := "fn." + sanitize(strings.TrimPrefix(f.String(), modPrefix))
+	fresh := !x.vc.declared[name]
 	t := x.vc.declGlobal(name, SInt)
+	if fresh {
+		// named functions live at distinct addresses below the package variables
+		x.nfuncs++
+		x.vc.assertGlobal(fmt.Sprintf("(= %s (- %d))", name, 1000000+x.nfuncs))
+	}
 	return t
 }
 
